@@ -414,5 +414,327 @@ pub open spec fn parse_payload<T: DeserializeInner, S>(s: Seq<u8>, pos: nat, wra
 //@  ret r
 //@end
 
+
+// ---- copy-kind marker traits (verbatim; needed by the range impls) ----------
+
+//@item epserde/src/traits/copy_type.rs name=CopySelector <<pub trait CopySelector {>>
+//@end
+//@item epserde/src/traits/copy_type.rs name=Zero <<pub struct Zero {}>>
+//@end
+//@item epserde/src/traits/copy_type.rs name=Zero::CopySelector <<impl CopySelector for Zero {>>
+//@end
+//@item epserde/src/traits/copy_type.rs name=Deep <<pub struct Deep {}>>
+//@end
+//@item epserde/src/traits/copy_type.rs name=Deep::CopySelector <<impl CopySelector for Deep {>>
+//@end
+//@item epserde/src/traits/copy_type.rs name=CopyType <<pub trait CopyType: Sized {>>
+//@end
+//@item epserde/src/traits/copy_type.rs name=ZeroCopy <<pub trait ZeroCopy: CopyType<Copy = Zero> + Copy + MaxSizeOf + 'static {}>>
+//@end
+//@item epserde/src/traits/copy_type.rs name=ZeroCopy::blanket <<impl<T: CopyType<Copy = Zero> + Copy + MaxSizeOf + 'static> ZeroCopy for T {}>>
+//@end
+//@item epserde/src/traits/copy_type.rs name=DeepCopy <<pub trait DeepCopy: CopyType<Copy = Deep> {}>>
+//@end
+//@item epserde/src/traits/copy_type.rs name=DeepCopy::blanket <<impl<T: CopyType<Copy = Deep>> DeepCopy for T {}>>
+//@end
+
+/// two fields one after the other
+pub open spec fn parse_pair<A: DeserializeInner, B: DeserializeInner, S>(s: Seq<u8>, pos: nat, mk: spec_fn(A, B) -> S) -> PR<S> {
+    match A::parse(s, pos) {
+        PR::Val(a, n) => match B::parse(s.skip(n as int), pos + n) {
+            PR::Val(b, m) => PR::Val(mk(a, b), n + m),
+            PR::BadTag(t) => PR::BadTag(t),
+            PR::Short => PR::Short,
+        },
+        PR::BadTag(t) => PR::BadTag(t),
+        PR::Short => PR::Short,
+    }
+}
+pub open spec fn parse_one<A: DeserializeInner, S>(s: Seq<u8>, pos: nat, mk: spec_fn(A) -> S) -> PR<S> {
+    match A::parse(s, pos) {
+        PR::Val(a, n) => PR::Val(mk(a), n),
+        PR::BadTag(t) => PR::BadTag(t),
+        PR::Short => PR::Short,
+    }
+}
+
+//@item epserde/src/impls/stdlib.rs props=C01,C02,C11 name=Range::DeserializeInner <<impl<Idx: ZeroCopy + DeserializeInner> DeserializeInner for core::ops::Range<Idx> {>>
+//@  replace <<deser::Result>> <<Result>>
+//@  body_prefix
+//@|    /// start then end, each encoded as a field
+//@|    open spec fn parse(s: Seq<u8>, pos: nat) -> PR<Self> {
+//@|        parse_pair::<Idx, Idx, Self>(s, pos, |a: Idx, b: Idx| core::ops::Range { start: a, end: b })
+//@|    }
+//@|    open spec fn eps_rel<'a>(d: core::ops::Range<<Idx as DeserializeInner>::DeserType<'a>>, v: Self) -> bool {
+//@|        Idx::eps_rel(d.start, v.start) && Idx::eps_rel(d.end, v.end)
+//@|    }
+//@  sub <<fn _deserialize_full_inner(backend: &mut impl ReadWithPos) -> deser::Result<Self> {>>
+//@  impl_arg
+//@  ret r
+//@  sub <<fn _deserialize_eps_inner<'a>(>>
+//@  ret r
+//@end
+
+
+//@item epserde/src/impls/stdlib.rs props=C01,C02,C11 name=RangeFrom::DeserializeInner <<impl<Idx: ZeroCopy + DeserializeInner> DeserializeInner for core::ops::RangeFrom<Idx> {>>
+//@  replace <<deser::Result>> <<Result>>
+//@  body_prefix
+//@|    open spec fn parse(s: Seq<u8>, pos: nat) -> PR<Self> {
+//@|        parse_one::<Idx, Self>(s, pos, |a: Idx| core::ops::RangeFrom { start: a })
+//@|    }
+//@|    open spec fn eps_rel<'a>(d: core::ops::RangeFrom<<Idx as DeserializeInner>::DeserType<'a>>, v: Self) -> bool {
+//@|        Idx::eps_rel(d.start, v.start)
+//@|    }
+//@  sub <<fn _deserialize_full_inner(backend: &mut impl ReadWithPos) -> deser::Result<Self> {>>
+//@  impl_arg
+//@  ret r
+//@  sub <<fn _deserialize_eps_inner<'a>(>>
+//@  ret r
+//@end
+
+//@item epserde/src/impls/stdlib.rs props=C01,C02,C11 name=RangeTo::DeserializeInner <<impl<Idx: ZeroCopy + DeserializeInner> DeserializeInner for core::ops::RangeTo<Idx> {>>
+//@  replace <<deser::Result>> <<Result>>
+//@  body_prefix
+//@|    open spec fn parse(s: Seq<u8>, pos: nat) -> PR<Self> {
+//@|        parse_one::<Idx, Self>(s, pos, |a: Idx| core::ops::RangeTo { end: a })
+//@|    }
+//@|    open spec fn eps_rel<'a>(d: core::ops::RangeTo<<Idx as DeserializeInner>::DeserType<'a>>, v: Self) -> bool {
+//@|        Idx::eps_rel(d.end, v.end)
+//@|    }
+//@  sub <<fn _deserialize_full_inner(backend: &mut impl ReadWithPos) -> deser::Result<Self> {>>
+//@  impl_arg
+//@  ret r
+//@  sub <<fn _deserialize_eps_inner<'a>(>>
+//@  ret r
+//@end
+
+//@item epserde/src/impls/stdlib.rs props=C01,C02,C11 name=RangeToInclusive::DeserializeInner <<impl<Idx: ZeroCopy + DeserializeInner> DeserializeInner for core::ops::RangeToInclusive<Idx> {>>
+//@  replace <<deser::Result>> <<Result>>
+//@  body_prefix
+//@|    open spec fn parse(s: Seq<u8>, pos: nat) -> PR<Self> {
+//@|        parse_one::<Idx, Self>(s, pos, |a: Idx| core::ops::RangeToInclusive { end: a })
+//@|    }
+//@|    open spec fn eps_rel<'a>(d: core::ops::RangeToInclusive<<Idx as DeserializeInner>::DeserType<'a>>, v: Self) -> bool {
+//@|        Idx::eps_rel(d.end, v.end)
+//@|    }
+//@  sub <<fn _deserialize_full_inner(backend: &mut impl ReadWithPos) -> deser::Result<Self> {>>
+//@  impl_arg
+//@  ret r
+//@  sub <<fn _deserialize_eps_inner<'a>(>>
+//@  ret r
+//@end
+
+//@item epserde/src/impls/stdlib.rs props=C01,C02 name=RangeFull::DeserializeInner <<impl DeserializeInner for core::ops::RangeFull {>>
+//@  replace <<deser::Result>> <<Result>>
+//@  body_prefix
+//@|    open spec fn parse(s: Seq<u8>, pos: nat) -> PR<Self> { PR::Val(core::ops::RangeFull, 0) }
+//@|    open spec fn eps_rel<'a>(d: Self, v: Self) -> bool { true }
+//@  sub <<fn _deserialize_full_inner(_backend: &mut impl ReadWithPos) -> deser::Result<Self> {>>
+//@  impl_arg
+//@  ret r
+//@  sub <<fn _deserialize_eps_inner<'a>(>>
+//@  ret r
+//@end
+
+
+// =========================================================================
+// deep sequences: the helper loops (all lengths)
+// =========================================================================
+
+/// k items one after the other
+pub open spec fn parse_items<T: DeserializeInner>(s: Seq<u8>, pos: nat, k: nat) -> PR<Seq<T>>
+    decreases k
+{
+    if k == 0 {
+        PR::Val(Seq::empty(), 0)
+    } else {
+        match parse_items::<T>(s, pos, (k - 1) as nat) {
+            PR::Val(vs, n) => match T::parse(s.skip(n as int), pos + n) {
+                PR::Val(v, m) => PR::Val(vs.push(v), n + m),
+                PR::BadTag(t) => PR::BadTag(t),
+                PR::Short => PR::Short,
+            },
+            PR::BadTag(t) => PR::BadTag(t),
+            PR::Short => PR::Short,
+        }
+    }
+}
+
+/// pointer-width length, then that many items
+pub open spec fn parse_seq_deep<T: DeserializeInner>(s: Seq<u8>, pos: nat) -> PR<Seq<T>> {
+    match usize::parse(s, pos) {
+        PR::Val(len, n) => match parse_items::<T>(s.skip(n as int), pos + n, len as nat) {
+            PR::Val(vs, m) => PR::Val(vs, n + m),
+            PR::BadTag(t) => PR::BadTag(t),
+            PR::Short => PR::Short,
+        },
+        PR::BadTag(t) => PR::BadTag(t),
+        PR::Short => PR::Short,
+    }
+}
+
+/// once an item fails, every longer sequence fails the same way
+proof fn lemma_items_stuck<T: DeserializeInner>(s: Seq<u8>, pos: nat, i: nat, k: nat)
+    requires i < k, parse_items::<T>(s, pos, i) is Val,
+        !(T::parse(s.skip(parse_items::<T>(s, pos, i)->Val_1 as int), pos + parse_items::<T>(s, pos, i)->Val_1) is Val),
+    ensures
+        parse_items::<T>(s, pos, k) == (match T::parse(s.skip(parse_items::<T>(s, pos, i)->Val_1 as int), pos + parse_items::<T>(s, pos, i)->Val_1) {
+            PR::BadTag(t) => PR::<Seq<T>>::BadTag(t),
+            _ => PR::<Seq<T>>::Short,
+        }),
+    decreases k
+{
+    if k == i + 1 {
+    } else {
+        lemma_items_stuck::<T>(s, pos, i, (k - 1) as nat);
+    }
+}
+
+/// the consumed count of a successful prefix stays within the input
+proof fn lemma_items_len<T: DeserializeInner>(s: Seq<u8>, pos: nat, k: nat)
+    requires parse_items::<T>(s, pos, k) is Val,
+    ensures parse_items::<T>(s, pos, k)->Val_0.len() == k,
+        forall|j: nat| j <= k ==> #[trigger] parse_items::<T>(s, pos, j) is Val,
+    decreases k
+{
+    if k > 0 {
+        lemma_items_len::<T>(s, pos, (k - 1) as nat);
+    }
+}
+
+pub open spec fn full_post_seq<T, R: ReadWithPos>(p: PR<Seq<T>>, pre: &R, post: &R, r: Result<Vec<T>>) -> bool {
+    match p {
+        PR::Val(vs, n) => match r {
+            Ok(x) => x@ == vs
+                && n <= pre.rem().len()
+                && post.rem() =~= pre.rem().skip(n as int)
+                && post.rpos() == pre.rpos() + n,
+            Err(e) => (e is ReadError && !pre.reliable()) || (e is AlignmentError && pre.is_slice()),
+        },
+        PR::BadTag(t) => match r {
+            Ok(_) => false,
+            Err(e) => e == Error::InvalidTag(t) || (e is ReadError && !pre.reliable())
+                || (e is AlignmentError && pre.is_slice()),
+        },
+        PR::Short => match r {
+            Ok(_) => false,
+            Err(e) => e is ReadError || (e is AlignmentError && pre.is_slice()),
+        },
+    }
+}
+
+//@item epserde/src/deser/helpers.rs props=C01,C11,C14 name=deserialize_full_vec_deep <<pub fn deserialize_full_vec_deep<T: DeserializeInner + DeepCopy>(>>
+//@  replace <<deser::Result>> <<Result>>
+//@  impl_arg
+//@  ret r
+//@  spec
+//@|    requires old(backend).wf(),
+//@|        old(backend).is_slice() ==> !(parse_seq_deep::<T>(old(backend).rem(), old(backend).rpos()) is Short),
+//@|    ensures final(backend).wf(),
+//@|        final(backend).reliable() == old(backend).reliable(),
+//@|        final(backend).is_slice() == old(backend).is_slice(),
+//@|        final(backend).rem().len() <= old(backend).rem().len(),
+//@|        full_post_seq::<T, ImplArg0>(parse_seq_deep::<T>(old(backend).rem(), old(backend).rpos()), old(backend), final(backend), r),
+//@  body_prefix
+//@|    let ghost rem0 = backend.rem();
+//@|    let ghost pos0 = backend.rpos();
+//@  loop_pre 1
+//@|    let ghost rem1 = backend.rem();
+//@|    let ghost pos1 = backend.rpos();
+//@|    let ghost mut n: nat = 0;
+//@|    proof { assert(rem1 =~= rem0.skip(8)); assert(rem1.skip(0) =~= rem1); }
+//@  loop_iter 1 it
+//@  loop 1
+//@|        invariant
+//@|            backend.wf(),
+//@|            backend.reliable() == old(backend).reliable(),
+//@|            backend.is_slice() == old(backend).is_slice(),
+//@|            usize::parse(rem0, pos0) == PR::Val(len, 8nat),
+//@|            rem1 =~= rem0.skip(8), pos1 == pos0 + 8, rem0.len() >= 8,
+//@|            rem0 == old(backend).rem(), pos0 == old(backend).rpos(),
+//@|            parse_items::<T>(rem1, pos1, it.index@ as nat) == PR::Val(res@, n),
+//@|            n <= rem1.len(),
+//@|            backend.rem() =~= rem1.skip(n as int),
+//@|            backend.rpos() == pos1 + n,
+//@|            backend.is_slice() ==> !(parse_items::<T>(rem1, pos1, len as nat) is Short),
+//@  loop_body_prefix 1
+//@|        let ghost p = T::parse(backend.rem(), backend.rpos());
+//@|        let ghost i = it.index@ as nat;
+//@|        proof {
+//@|            assert(backend.rem() =~= rem1.skip(n as int));
+//@|            if !(p is Val) { lemma_items_stuck::<T>(rem1, pos1, i, len as nat); }
+//@|        }
+//@  loop_body_suffix 1
+//@|        proof {
+//@|            assert(rem1.skip(n as int).skip(p->Val_1 as int) =~= rem1.skip((n + p->Val_1) as int));
+//@|            n = n + p->Val_1;
+//@|        }
+//@end
+
+
+/// an eps-copy item sequence describes a value sequence pointwise
+pub open spec fn eps_rel_seq<'a, T: DeserializeInner>(d: Seq<<T as DeserializeInner>::DeserType<'a>>, vs: Seq<T>) -> bool {
+    d.len() == vs.len() && forall|i: int| 0 <= i < vs.len() ==> T::eps_rel(#[trigger] d[i], vs[i])
+}
+
+//@item epserde/src/deser/helpers.rs props=C02,C11 name=deserialize_eps_vec_deep <<pub fn deserialize_eps_vec_deep<'a, T: DeepCopy + DeserializeInner>(>>
+//@  replace <<deser::Result>> <<Result>>
+//@  ret r
+//@  spec
+//@|    requires slice_wf(old(backend)),
+//@|        !(parse_seq_deep::<T>(old(backend).data@, old(backend).pos as nat) is Short),
+//@|    ensures slice_wf(final(backend)),
+//@|        final(backend).data@.len() <= old(backend).data@.len(),
+//@|        match parse_seq_deep::<T>(old(backend).data@, old(backend).pos as nat) {
+//@|            PR::Val(vs, n) => match r {
+//@|                Ok(d) => eps_rel_seq::<T>(d@, vs)
+//@|                    && n <= old(backend).data@.len()
+//@|                    && final(backend).data@ =~= old(backend).data@.skip(n as int)
+//@|                    && final(backend).pos == old(backend).pos + n,
+//@|                Err(e) => e is AlignmentError,
+//@|            },
+//@|            PR::BadTag(t) => match r {
+//@|                Ok(_) => false,
+//@|                Err(e) => e is AlignmentError || e == Error::InvalidTag(t),
+//@|            },
+//@|            PR::Short => true,
+//@|        },
+//@  body_prefix
+//@|    let ghost rem0 = backend.data@;
+//@|    let ghost pos0 = backend.pos as nat;
+//@  loop_pre 1
+//@|    let ghost rem1 = backend.data@;
+//@|    let ghost pos1 = backend.pos as nat;
+//@|    let ghost mut n: nat = 0;
+//@|    let ghost mut vs: Seq<T> = Seq::empty();
+//@|    proof { assert(rem1 =~= rem0.skip(8)); assert(rem1.skip(0) =~= rem1); }
+//@  loop_iter 1 it
+//@  loop 1
+//@|        invariant
+//@|            slice_wf(backend),
+//@|            usize::parse(rem0, pos0) == PR::Val(len, 8nat),
+//@|            rem1 =~= rem0.skip(8), pos1 == pos0 + 8, rem0.len() >= 8,
+//@|            rem0 == old(backend).data@, pos0 == old(backend).pos as nat,
+//@|            parse_items::<T>(rem1, pos1, it.index@ as nat) == PR::Val(vs, n),
+//@|            eps_rel_seq::<T>(res@, vs),
+//@|            n <= rem1.len(),
+//@|            backend.data@ =~= rem1.skip(n as int),
+//@|            backend.pos as nat == pos1 + n,
+//@|            !(parse_items::<T>(rem1, pos1, len as nat) is Short),
+//@  loop_body_prefix 1
+//@|        let ghost p = T::parse(backend.data@, backend.pos as nat);
+//@|        let ghost i = it.index@ as nat;
+//@|        proof {
+//@|            assert(backend.data@ =~= rem1.skip(n as int));
+//@|            if !(p is Val) { lemma_items_stuck::<T>(rem1, pos1, i, len as nat); }
+//@|        }
+//@  loop_body_suffix 1
+//@|        proof {
+//@|            assert(rem1.skip(n as int).skip(p->Val_1 as int) =~= rem1.skip((n + p->Val_1) as int));
+//@|            n = n + p->Val_1;
+//@|            vs = vs.push(p->Val_0);
+//@|        }
+//@end
+
 } // verus!
 fn main() {}
